@@ -73,8 +73,11 @@ def per_row_obs(e, n):
     return outs, fz
 
 
-def compare_rows(exp_rows, outs, fz, n, skip_tainted):
-    """exp_rows: list of n Observe records; returns description of the first mismatch or None"""
+def compare_rows(exp_rows, outs, fz, n, skip_tainted, tie_prone=(), ref=None, k0=0, record=None):
+    """exp_rows: list of n Observe records; returns description of the first mismatch or None.
+    Under a tie-prone defuzzifier (Bisector, SOM, MOM, LOM) rounding may break a tie of the exact arithmetic (C09): the value of
+    such an output is compared between the modes (the float mode records it, the batch modes must reproduce it), not with the
+    specification; its fuzzy set is compared with the specification as everywhere."""
     for r in range(n):
         ex = exp_rows[r]
         if ex["tainted"]:
@@ -82,7 +85,12 @@ def compare_rows(exp_rows, outs, fz, n, skip_tainted):
         for o in range(len(outs)):
             if len(outs[o]) != n:
                 return f"row {r}: output[{o}] has {len(outs[o])} values for a batch of {n}"
-            if not feq(to_float(ex["out"][o]), outs[o][r]):
+            if o in tie_prone:
+                if record is not None:
+                    record[(k0 + r, o)] = float(outs[o][r])
+                elif ref is not None and (k0 + r, o) in ref and not feq(ref[(k0 + r, o)], outs[o][r], 1e-12):
+                    return f"row {r}: output[{o}] = {outs[o][r]}, but {ref[(k0 + r, o)]} when the same row is processed as a float"
+            elif not feq(to_float(ex["out"][o]), outs[o][r]):
                 return f"row {r}: output[{o}] = {outs[o][r]}, expected {to_float(ex['out'][o])}"
             if len(fz[o]) != len(ex["fuzzy"][o]):
                 return f"row {r}: fuzzy[{o}] has {len(fz[o])} activations, expected {len(ex['fuzzy'][o])}"
@@ -93,9 +101,13 @@ def compare_rows(exp_rows, outs, fz, n, skip_tainted):
     return None
 
 
-def run_mode(fl, E, rows, parts, mode, expected):
+TIE_PRONE = {"Bisector", "SmallestOfMaximum", "MeanOfMaximum", "LargestOfMaximum"}
+
+
+def run_mode(fl, E, rows, parts, mode, expected, ref=None, record=None):
     """returns (mismatch description | None, exception text | None, fuzzy_value strings per row)"""
     e = build_engine(fl, E)
+    tie_prone = {o for o, v in enumerate(E["outputs"]) if v["defuzzifier"]["cls"] in TIE_PRONE}
     k = 0
     fvs = []
     for n in parts:
@@ -122,7 +134,7 @@ def run_mode(fl, E, rows, parts, mode, expected):
         except Exception as ex:  # noqa
             return None, f"{type(ex).__name__}: {ex}", fvs
         outs, fz = per_row_obs(e, n)
-        bad = compare_rows([expected[k + r + 1] for r in range(n)], outs, fz, n, True)
+        bad = compare_rows([expected[k + r + 1] for r in range(n)], outs, fz, n, True, tie_prone, ref, k, record)
         if bad:
             return f"rows {k}..{k + n - 1} as one batch: {bad}", None, fvs
         # the recorded previous value is the last value held before the call (C12): the value after row k, NaN at the start
@@ -131,6 +143,11 @@ def run_mode(fl, E, rows, parts, mode, expected):
                 want = math.nan
             elif expected[k]["tainted"]:
                 continue
+            elif o in tie_prone:
+                src = record if record is not None else ref
+                if src is None or (k - 1, o) not in src:
+                    continue
+                want = src[(k - 1, o)]
             else:
                 want = to_float(expected[k]["out"][o])
             if E["outputs"][o]["enabled"] and not feq(want, float(np.asarray(v.previous_value))):
@@ -162,7 +179,8 @@ def run(ctx: core.Ctx):
             continue
         E = case["engine"]
         desc = {"engine": E, "rows": case["rows"]}
-        bad, exc0, fv0 = run_mode(fl, E, case["rows"], [1] * L, "float", expected)
+        float_outs = {}
+        bad, exc0, fv0 = run_mode(fl, E, case["rows"], [1] * L, "float", expected, record=float_outs)
         ctx.count()
         if bad:
             ctx.violation(f"float-mode/{E['name'].split('+')[0]}", desc, None, bad, note=f"{E['name']}: {bad}")
@@ -175,7 +193,7 @@ def run(ctx: core.Ctx):
                 modes = ["arrays", "matrix"]
             for mode in modes:
                 ctx.count()
-                bad, exc, fv = run_mode(fl, E, case["rows"], parts, mode, expected)
+                bad, exc, fv = run_mode(fl, E, case["rows"], parts, mode, expected, ref=float_outs)
                 key_eng = E["name"].split("+")[0]
                 if any(o["defuzzifier"]["cls"] not in ("WeightedAverage", "WeightedSum", "none") and o["defuzzifier"]["resolution"] == 1 for o in E["outputs"]):
                     key_eng = "resolution-1"  # the degenerate resolution recorded as a known finding of C09
